@@ -812,6 +812,15 @@ func (s *scope) lenFacts(pr *proof, a Lin, x ssa.Value) {
 		}
 	case *ssa.UnOp:
 		if y.Op == token.MUL {
+			if fv, ok := y.X.(*ssa.FreeVar); ok {
+				// a captured variable loaded again inside a function literal that never assigns it and calls
+				// nothing that could: the same slice as at the first load
+				if first := stableFreeVarLoad(s.b.p, y, fv); first != nil && first != y {
+					if l, ok := s.lenLin(first, pr); ok {
+						pr.add(eq(a, l)...)
+					}
+				}
+			}
 			if k, ok := fieldAddrKey(y.X); ok {
 				if iv := s.b.fieldLenInv(k); iv != nil {
 					if iv.hasLo {
@@ -833,6 +842,50 @@ func (s *scope) lenFacts(pr *proof, a Lin, x ssa.Value) {
 		}
 	}
 	_ = p
+}
+
+// stableFreeVarLoad: the first load of the captured variable fv in ld's function, provided that function never
+// stores to fv and calls only builtins and library functions that are handed no function, interface or
+// module-typed pointer (nothing that could run module code assigning the variable).
+func stableFreeVarLoad(p *Prog, ld *ssa.UnOp, fv *ssa.FreeVar) *ssa.UnOp {
+	fn := ld.Parent()
+	var first *ssa.UnOp
+	stable := true
+	allInstrs(fn, func(in ssa.Instruction) {
+		switch x := in.(type) {
+		case *ssa.UnOp:
+			if x.Op == token.MUL && x.X == ssa.Value(fv) && first == nil {
+				first = x
+			}
+		case *ssa.Store:
+			if x.Addr == ssa.Value(fv) {
+				stable = false
+			}
+		case ssa.CallInstruction:
+			if _, isB := x.Common().Value.(*ssa.Builtin); isB {
+				return
+			}
+			callee := x.Common().StaticCallee()
+			if callee == nil || p.inModule(callee) {
+				stable = false
+				return
+			}
+			for _, arg := range x.Common().Args {
+				switch t := arg.Type().Underlying().(type) {
+				case *types.Interface, *types.Signature:
+					stable = false
+				case *types.Pointer:
+					if nt, ok := t.Elem().(*types.Named); ok && nt.Obj().Pkg() != nil && strings.HasPrefix(nt.Obj().Pkg().Path(), modulePath) {
+						stable = false
+					}
+				}
+			}
+		}
+	})
+	if !stable {
+		return nil
+	}
+	return first
 }
 
 // previousLoad finds the closest earlier load of the same field of the same
@@ -1196,6 +1249,43 @@ func (s *scope) phiFacts(pr *proof, a Lin, x *ssa.Phi) {
 						pr.add(geC(a, c))
 					}
 				}
+			}
+		}
+		// ... and the mirror image: phi = [init, phi - c (c>=0)] ⇒ phi <= init (down-counting loops)
+		down := true
+		var dinits []ssa.Value
+		for i, e := range x.Edges {
+			if isBackEdge(blk.Preds[i], blk) {
+				b, ok := unspill(e).(*ssa.BinOp)
+				if !ok {
+					down = false
+					break
+				}
+				okd := false
+				if b.Op == token.SUB && unspill(b.X) == ssa.Value(x) {
+					if c, okc := intConst(b.Y); okc && c >= 0 {
+						okd = true
+					}
+				}
+				if b.Op == token.ADD {
+					if c, okc := intConst(b.Y); okc && c <= 0 && unspill(b.X) == ssa.Value(x) {
+						okd = true
+					}
+					if c, okc := intConst(b.X); okc && c <= 0 && unspill(b.Y) == ssa.Value(x) {
+						okd = true
+					}
+				}
+				if !okd {
+					down = false
+					break
+				}
+			} else {
+				dinits = append(dinits, e)
+			}
+		}
+		if down && len(dinits) == 1 {
+			if c, ok := intConst(dinits[0]); ok {
+				pr.add(leC(a, c))
 			}
 		}
 		return
